@@ -75,3 +75,17 @@ Proof.
   - simpl. destruct (r ++ y :: ys') eqn:E; [destruct r; discriminate|reflexivity].
   - rewrite IH. apply last_cons_default.
 Qed.
+
+Lemma combine_map_l_flat {Y Z : Type} (f : nat * Y -> list Z) (g : nat -> nat) (l : list nat) (m : list Y) :
+  flat_map f (combine (map g l) m) = flat_map (fun kd => f (g (fst kd), snd kd)) (combine l m).
+Proof.
+  revert m. induction l as [|x r IH]; intros m; simpl; [reflexivity|].
+  destruct m as [|y m']; simpl; [reflexivity|]. rewrite IH. reflexivity.
+Qed.
+
+Lemma flat_map_ext_in {X Y : Type} (f g : X -> list Y) (l : list X) :
+  (forall x, In x l -> f x = g x) -> flat_map f l = flat_map g l.
+Proof.
+  induction l as [|x r IH]; intros H; simpl; [reflexivity|].
+  rewrite (H x (or_introl eq_refl)), IH; [reflexivity|]. intros y Hy. apply H. right. exact Hy.
+Qed.
